@@ -14,6 +14,7 @@ import (
 	"encoding/binary"
 	"encoding/json"
 	"fmt"
+	"os"
 	"time"
 
 	"github.com/cloudwego/shmipc-go/simrt"
@@ -28,6 +29,7 @@ type usePlan struct {
 	Extra       int  `json:"extra,omitempty"`        // unsolicited bytes the server sends some time after the response
 	ExtraDelay  int  `json:"extra_delay_ms,omitempty"`
 	NoPutBack   bool `json:"no_putback,omitempty"`   // the caller closes the stream instead of giving it back
+	LingerMs    int  `json:"linger_ms,omitempty"`    // pause between the (partial) read and PutBack: unread bytes have arrived by then
 	SleepMs     int  `json:"sleep_ms,omitempty"`     // pause before the use
 }
 
@@ -79,6 +81,11 @@ func genUse(r *Rng, cfg sessCfg, prop string, lateOK bool) usePlan {
 			if lateOK {
 				u.LeaveUnread = 1 + r.Intn(u.RespLen)
 			}
+		case 4, 5:
+			// the rest of the response (or all of it) is left unread but has arrived when the stream is given back:
+			// the pool must not keep such a stream
+			u.LeaveUnread = r.Pick(u.RespLen, u.RespLen, 1+r.Intn(u.RespLen))
+			u.LingerMs = r.Pick(5, 50, 500)
 		case 2:
 			if lateOK {
 				u.Extra = 1 + r.Intn(300)
@@ -146,6 +153,20 @@ func (mgrScenario) Gen(r *Rng, tier string, opts map[string]string) interface{} 
 			p.Events = append(p.Events, mgrEvent{AtMs: next(), Kind: "mgr_close"})
 		}
 	case "C16":
+		if r.Chance(1, 5) {
+			// two complete hand-overs in the life of one manager
+			e1 := 1000 + r.Intn(50)
+			p.Events = append(p.Events, mgrEvent{AtMs: next(), Kind: "new_listener"}, mgrEvent{AtMs: next(), Kind: "hot_restart", N: e1}, mgrEvent{AtMs: t + 3500, Kind: "old_close"})
+			t += 3500 + r.Pick(100, 1000, 3000)
+			p.Events = append(p.Events, mgrEvent{AtMs: t, Kind: "new_listener"}, mgrEvent{AtMs: t + r.Pick(1, 100), Kind: "hot_restart", N: e1 + 1 + r.Intn(5)}, mgrEvent{AtMs: t + 3700, Kind: "old_close"})
+			break
+		}
+		if r.Chance(1, 6) {
+			// nothing can be moved: the path is gone when the restart is requested; the replacement shows up later
+			p.Events = append(p.Events, mgrEvent{AtMs: next(), Kind: "unlink_socket"}, mgrEvent{AtMs: next(), Kind: "hot_restart", N: 1000 + r.Intn(50)},
+				mgrEvent{AtMs: t + 2500 + r.Intn(1500), Kind: "new_listener"}, mgrEvent{AtMs: t + 4500, Kind: "hot_restart_again", N: 2000 + r.Intn(50)}, mgrEvent{AtMs: t + 9000, Kind: "old_close"})
+			break
+		}
 		lateListener := r.Chance(1, 4)
 		noListener := !lateListener && r.Chance(1, 6)
 		if !lateListener && !noListener {
@@ -251,6 +272,7 @@ type mgrWorld struct {
 	sm      *SessionManager
 	held    map[*Stream]int // stream -> caller currently holding it
 	late    map[*Stream]bool // an earlier use of this stream left bytes unread / still in flight when it was given back
+	dirty   map[*Stream]bool // given back while unread bytes had already arrived: must never come out of the pool again
 	uses    int64
 	okUses  int64
 	errUses int64
@@ -272,6 +294,8 @@ type mgrWorld struct {
 	callerBusy    []time.Duration
 	callerWhat    []string
 	faulty        bool
+	socketGone    bool
+	rounds        int
 	benign        bool
 	cleanHandover bool
 }
@@ -368,15 +392,20 @@ func (mgrScenario) Run(s *simrt.Sim, plan interface{}, opts map[string]string) (
 	k := ssys.NewKernel(s, p.Cfg.kernel())
 	_ = k
 	installGlobals(s)
-	w := &mgrWorld{plan: p, sim: s, own: opts["property"], held: map[*Stream]int{}, late: map[*Stream]bool{}, probes: map[string]int64{}}
+	w := &mgrWorld{plan: p, sim: s, own: opts["property"], held: map[*Stream]int{}, late: map[*Stream]bool{}, dirty: map[*Stream]bool{}, probes: map[string]int64{}}
 	w.pm = newProc(s, "harness", 6000)
 	w.pc = newProc(s, "client", 6001)
 	w.dir = newRunDir(s)
 	w.sock = w.dir + "/server.sock"
 	w.faulty = len(p.Events) > 0
 	// a clean hand-over: the new listener is up before HotRestart, nothing else happens
-	if len(p.Events) == 3 && p.Events[0].Kind == "new_listener" && p.Events[1].Kind == "hot_restart" && p.Events[2].Kind == "old_close" {
+	if n := len(p.Events); n > 0 && n%3 == 0 {
 		w.cleanHandover = true
+		for i := 0; i < n; i += 3 {
+			if p.Events[i].Kind != "new_listener" || p.Events[i+1].Kind != "hot_restart" || p.Events[i+2].Kind != "old_close" {
+				w.cleanHandover = false
+			}
+		}
 	}
 	w.benign = true
 	for _, c := range p.Callers {
@@ -565,6 +594,11 @@ func (w *mgrWorld) use(caller, useIdx int, u usePlan, mustSucceed bool) (ok bool
 		return false
 	}
 	w.held[st] = caller
+	if w.dirty[st] {
+		w.fail("C15.pooled_dirty", nil, "caller %d use %d: GetStream returned stream %d, which was given back while %s", caller, useIdx, st.StreamID(), "unread bytes of the previous use had already arrived (it should have been closed, not pooled)")
+		delete(w.held, st)
+		return false
+	}
 	release := func() {
 		delete(w.held, st)
 	}
@@ -622,7 +656,21 @@ func (w *mgrWorld) use(caller, useIdx int, u usePlan, mustSucceed bool) (ok bool
 		}
 		st.BufferReader().ReleasePreviousRead()
 	}
-	if u.Extra > 0 || u.LeaveUnread > 0 {
+	if u.LingerMs > 0 {
+		simrt.Sleep(time.Duration(u.LingerMs) * time.Millisecond)
+	}
+	// bytes of this use that already sit in the stream when it is given back must keep it out of the pool; bytes still
+	// in flight are the (known) blind spot of the PutBack-time check
+	arrived := st.recvBuf.Len() > 0
+	st.pendingData.Lock()
+	if len(st.pendingData.unread) > 0 {
+		arrived = true
+	}
+	st.pendingData.Unlock()
+	if arrived && !u.NoPutBack {
+		w.dirty[st] = true
+		w.probes["putback_with_arrived_unread_bytes"]++
+	} else if u.Extra > 0 || u.LeaveUnread > 0 {
 		w.late[st] = true
 	}
 	what("putback")
@@ -705,7 +753,14 @@ func (w *mgrWorld) director() {
 				w.lastFaultAt = simrt.Now()
 			}
 		case "new_listener":
-			if w.serverIsUp && w.old == nil {
+			if w.socketGone && w.old != nil {
+				// the replacement finally comes up on the path that had disappeared
+				w.cur = w.startServer(true)
+				w.socketGone = false
+				w.serverIsUp = w.cur != nil
+				w.serverUpAt = simrt.Now()
+				w.lastFaultAt = simrt.Now()
+			} else if w.serverIsUp && w.old == nil {
 				w.old = w.cur
 				w.cur = w.startServer(true)
 				w.hotListener = true
@@ -719,11 +774,15 @@ func (w *mgrWorld) director() {
 			if srv != nil && srv.up && srv.listener != nil {
 				l := srv.listener
 				ep := uint64(ev.N)
-				if ev.Kind == "hot_restart" {
+				if ev.Kind == "hot_restart" || (ep != w.hotEpoch && simrt.Now()-w.hotStartedAt > 2500*time.Millisecond) {
+					// a first request, or a new one after the previous attempt has finished or timed out
 					w.hotEpoch = ep
 					w.hotStartedAt = simrt.Now()
 					if w.old == nil {
 						w.old = w.cur
+					}
+					if w.cur != w.old {
+						w.hotListener = true
 					}
 				}
 				want := w.plan.SessionNum
@@ -747,6 +806,12 @@ func (w *mgrWorld) director() {
 				simrt.Count("fault.hot_restart", 1)
 				w.lastFaultAt = simrt.Now()
 			}
+		case "unlink_socket":
+			// the socket path disappears (a new server that unlinked it and died before listening): dials fail
+			_ = os.Remove(w.sock)
+			w.socketGone = true
+			w.lastFaultAt = simrt.Now()
+			simrt.Count("fault.socket_unlinked", 1)
 		case "old_close":
 			// the application lets the old server go once the hand-over is reported done: by then every pool
 			// must already be on a session of the announced epoch connected to the new server
@@ -776,6 +841,8 @@ func (w *mgrWorld) director() {
 				if w.cur == w.old {
 					w.serverIsUp = false
 				}
+				w.old = nil // the next round may start
+				w.rounds++
 				w.lastFaultAt = simrt.Now()
 			}
 		case "mgr_close":
